@@ -31,3 +31,14 @@ Definition snap_diagnosis (c : config) (S : list state) (o : snapshot) : nat :=
                                     && Bool.eqb (sn_run_returned (snapshot_of s)) (sn_run_returned o)) qs) then 4
     else 5
   end.
+
+(* for a snapshot rejected on the census alone (diagnosis 5): the largest census among the compatible
+   quiescent model states that agree with the snapshot on everything else.  An implementation census
+   above it is a goroutine the model (hence the C18_sup theorems) says cannot exist after this history. *)
+Definition snap_census_max (c : config) (S : list state) (o : snapshot) : nat :=
+  fold_left Nat.max
+    (map (fun s => sn_gor (snapshot_of s))
+       (filter (fun s => quiescent c s
+                         && natlist_eqb (sn_blocked (snapshot_of s)) (sn_blocked o)
+                         && smap_eqb (sn_smap (snapshot_of s)) (sn_smap o)
+                         && Bool.eqb (sn_run_returned (snapshot_of s)) (sn_run_returned o)) S)) 0.
